@@ -9,11 +9,32 @@ use crate::driver::AnyFlow;
 use crate::engine::{guarded, show, Report, Tier, Violation};
 use crate::refmodel::framing::{after, decide, After, Framing};
 
-pub const RULE: &str = "full product, no pruning: request method (9) x status 100..=999 (900) x response version {1.0,1.1} x Content-Length {absent,0,7,18446744073709551615,abc,-1,4294967296,20-character zero-padded 7,2^64} x Transfer-Encoding {absent,chunked,Chunked,CHUNKED,'gzip, chunked','gzip,chunked',gzip,identity,'gzip,' (empty list element),'' (empty value),chunk} = 1 603 800 cells (every third status additionally carries empty-valued fields ahead of the framing headers) x entry points {Flow::try_response+proceed+body_mode, Call::try_response+into_body}; each cell also reads a probe body with trailing bytes to confirm the decided framing is the one applied. distinct = distinct (method, status class, version, CL, TE, decision) cells";
+pub const RULE: &str = "full product, no pruning: request method (9) x status 100..=999 (900) x response version {1.0,1.1} x Content-Length {absent,0,7,18446744073709551615,abc,-1,4294967296,20-character zero-padded 7,2^64} x Transfer-Encoding {absent,chunked,Chunked,CHUNKED,'gzip, chunked','gzip,chunked',gzip,identity,'gzip,' (empty list element),'' (empty value),chunk} = 1 603 800 cells in the plain context (every third status additionally carries empty-valued fields ahead of the framing headers) ; in addition the same product under three contexts that must not influence the decision - response Connection: close, response Connection: keep-alive, and a 'loaded' exchange (HTTP/1.0 request where the method allows, request connection: close, body methods with an Expect handshake refused by this very head, response Connection: close) - 6 415 200 cells in all, x entry points {Flow::try_response+proceed+body_mode, Call::try_response+into_body}; each cell also reads a probe body with trailing bytes to confirm the decided framing is the one applied. distinct = distinct (method, status class, version, CL, TE, decision) cells";
 
 const METHODS: [&str; 9] = ["GET", "HEAD", "POST", "PUT", "DELETE", "CONNECT", "OPTIONS", "TRACE", "PATCH"];
 const CLS: [Option<&str>; 9] = [None, Some("0"), Some("7"), Some("18446744073709551615"), Some("abc"), Some("-1"), Some("4294967296"), Some("00000000000000000007"), Some("18446744073709551616")];
 const TES: [Option<&str>; 11] = [None, Some("chunked"), Some("Chunked"), Some("CHUNKED"), Some("gzip, chunked"), Some("gzip,chunked"), Some("gzip"), Some("identity"), Some("gzip,"), Some(""), Some("chunk")];
+
+/// Exchange contexts that must NOT influence the framing decision or the successor state.
+/// plain: GET-like request, no Connection header on the response.
+/// conn-close / keep-alive: the response additionally carries that Connection header.
+/// loaded: every request-side close condition holds (HTTP/1.0 request where the method allows it,
+/// `connection: close` on the request, body methods with an Expect handshake that this very head
+/// refuses) and the response carries `Connection: close` as well.
+const CTXS: [&str; 4] = ["plain", "conn-close", "keep-alive", "loaded"];
+const CTX_STATUSES: [u16; 24] = [100, 101, 199, 200, 201, 204, 205, 299, 300, 301, 302, 303, 304, 305, 307, 308, 399, 400, 404, 499, 500, 599, 600, 999];
+
+fn head_bytes_ctx(status: u16, v11: bool, cl: Option<&str>, te: Option<&str>, ctx: &str) -> Vec<u8> {
+    let mut h = head_bytes(status, v11, cl, te);
+    let conn = match ctx {
+        "conn-close" | "loaded" => "Connection: close\r\n\r\n",
+        "keep-alive" => "Connection: keep-alive\r\n\r\n",
+        _ => return h,
+    };
+    h.truncate(h.len() - 2);
+    h.extend_from_slice(conn.as_bytes());
+    h
+}
 
 fn head_bytes(status: u16, v11: bool, cl: Option<&str>, te: Option<&str>) -> Vec<u8> {
     let mut h = format!("HTTP/1.{} {} X\r\n", if v11 { 1 } else { 0 }, status);
@@ -188,19 +209,41 @@ fn fmt_framing(f: Framing) -> String {
     }
 }
 
-fn check_cell(method: &str, status: u16, v11: bool, cl: Option<&str>, te: Option<&str>, bases: &Bases) -> (Vec<(String, String)>, String) {
-    let head = head_bytes(status, v11, cl, te);
+fn check_cell(method: &str, status: u16, v11: bool, cl: Option<&str>, te: Option<&str>, ctx: &str, bases: &Bases) -> (Vec<(String, String)>, String) {
+    let head = head_bytes_ctx(status, v11, cl, te, ctx);
     let want = decide(method, status, v11, cl, te);
     let want_after = after(status, want);
     let mut fails = Vec::new();
-    let r = guarded(|| (flow_cell(&bases.flow, &head, want), call_cell(&bases.call, &head)));
+    let r = guarded(|| {
+        let fc = if ctx == "loaded" {
+            match &bases.loaded {
+                Loaded::Flow(f) => flow_cell(f, &head, want),
+                Loaded::Await(a) => {
+                    // the Expect handshake sees this head first; a non-100 head refuses and the body is skipped
+                    let mut a = a.clone();
+                    match a.try_read_100(&head) {
+                        Err(e) => (Seen::Error(format!("{:?}", e)), None),
+                        Ok(_) if status == 100 => (Seen::Interim { ready: false }, None),
+                        Ok(_) => match a.proceed() {
+                            Ok(ureq_proto::client::flow::Await100Result::RecvResponse(f)) => flow_cell(&f, &head, want),
+                            Ok(_) => (Seen::Other("a refused Expect handshake did not lead to RecvResponse".into()), None),
+                            Err(e) => (Seen::Other(format!("Await100::proceed: {:?}", e)), None),
+                        },
+                    }
+                }
+            }
+        } else {
+            flow_cell(&bases.flow, &head, want)
+        };
+        (fc, call_cell(&bases.call, &head))
+    });
     let ((fseen, probe), cseen) = match r {
         Ok(x) => x,
         Err(p) => {
             return (vec![(format!("C06:panic:{}", crate::engine::panic_site(&p)), p)], "panic".into());
         }
     };
-    let cell = format!("{} {} HTTP/1.{} CL={:?} TE={:?}", method, status, v11 as u8, cl, te);
+    let cell = format!("{} {} HTTP/1.{} CL={:?} TE={:?}{}", method, status, v11 as u8, cl, te, if ctx == "plain" { String::new() } else { format!(" ctx={}", ctx) });
     if status == 100 {
         // interim response: never the response of the exchange. Allowed: consumed & not ready, or an error.
         for (front, seen) in [("flow", &fseen), ("call", &cseen)] {
@@ -212,7 +255,7 @@ fn check_cell(method: &str, status: u16, v11: bool, cl: Option<&str>, te: Option
         if let Some(p) = probe {
             fails.push(("C06:flow:status-100-unusable".into(), format!("{}: {}", cell, p)));
         }
-        return (fails, format!("{}|{}|100", method, v11));
+        return (fails, format!("{}|{}|100|{}", method, v11, ctx));
     }
     // flow: successor state + mode
     let flow_ok = match (&fseen, want_after) {
@@ -260,15 +303,39 @@ fn check_cell(method: &str, status: u16, v11: bool, cl: Option<&str>, te: Option
         300..=399 => "3xx",
         _ => "other",
     };
-    (fails, format!("{}|{}|{}|{:?}|{:?}|{}", method, sc, v11, cl, te, fmt_framing(want)))
+    (fails, format!("{}|{}|{}|{:?}|{:?}|{}|{}", method, sc, v11, cl, te, ctx, fmt_framing(want)))
+}
+
+enum Loaded {
+    Flow(ureq_proto::client::flow::Flow<(), ureq_proto::client::flow::state::RecvResponse>),
+    Await(ureq_proto::client::flow::Flow<(), ureq_proto::client::flow::state::Await100>),
 }
 
 struct Bases {
     flow: ureq_proto::client::flow::Flow<(), ureq_proto::client::flow::state::RecvResponse>,
     call: ureq_proto::client::call::Call<ureq_proto::client::call::state::RecvResponse, ()>,
+    loaded: Loaded,
+}
+
+fn bases(m: &str) -> Bases {
+    let ver = if matches!(m, "GET" | "HEAD" | "POST") { "1.0" } else { "1.1" };
+    let mut cfg = crate::driver::ReqCfg::new(m, ver, "http://a.test/p").orig("connection", "close");
+    let loaded = if crate::refmodel::reqvalid::needs_body(m) {
+        cfg = cfg.orig("content-length", "3").orig("expect", "100-continue");
+        let mut f = cfg.build_prepare().expect("prepare").proceed();
+        crate::driver::write_whole_head(&mut f).expect("head");
+        match AnyFlow::SendRequest(f).proceed() {
+            Ok(Some(AnyFlow::Await100(a))) => Loaded::Await(a),
+            _ => panic!("harness: expected Await100"),
+        }
+    } else {
+        Loaded::Flow(super::flows::recv_response_flow_cfg(&cfg).expect("loaded flow"))
+    };
+    Bases { flow: recv_response_flow(m), call: recv_response_call(m), loaded }
 }
 
 pub fn run(_tier: Tier) -> Report {
+    let all_ctx = true;
     let mut jobs: Vec<(&str, u16)> = Vec::new();
     for m in METHODS {
         for s in 100..=999u16 {
@@ -282,11 +349,18 @@ pub fn run(_tier: Tier) -> Report {
             let mut rep = Report::new();
             let _g = crate::engine::watch(|| format!("C06 rows {}..", ci * 50));
             for (i, (m, s)) in chunk.iter().enumerate() {
-                let bases = Bases { flow: recv_response_flow(m), call: recv_response_call(m) };
+                let bases = bases(m);
                 for v11 in [false, true] {
                     for cl in CLS {
                         for te in TES {
-                            let (fails, class) = check_cell(m, *s, v11, cl, te, &bases);
+                          for ctx in CTXS {
+                            if ctx != "plain" && !all_ctx && !CTX_STATUSES.contains(s) {
+                                continue;
+                            }
+                            if ctx == "loaded" {
+                                rep.guard("cells in the loaded context", true);
+                            }
+                            let (fails, class) = check_cell(m, *s, v11, cl, te, ctx, &bases);
                             rep.evaluations += 2;
                             rep.states += 1;
                             rep.transitions += 5;
@@ -302,11 +376,12 @@ pub fn run(_tier: Tier) -> Report {
                             }
                             let ord = ((ci * 50 + i) * 96) as u64;
                             if fails.is_empty() && (*s as usize * 7 + cl.map(|c| c.len()).unwrap_or(0) + te.map(|t| t.len()).unwrap_or(0)) % 997 == 0 {
-                                crate::engine::validate_case(&mut rep, replay, json!({"method": m, "status": s, "v11": v11, "cl": cl, "te": te}));
+                                crate::engine::validate_case(&mut rep, replay, json!({"method": m, "status": s, "v11": v11, "cl": cl, "te": te, "ctx": ctx}));
                             }
                             for (key, what) in fails {
-                                rep.violation(Violation { key, ord, what, replay: json!({"method": m, "status": s, "v11": v11, "cl": cl, "te": te}) });
+                                rep.violation(Violation { key, ord, what, replay: json!({"method": m, "status": s, "v11": v11, "cl": cl, "te": te, "ctx": ctx}) });
                             }
+                          }
                         }
                     }
                 }
@@ -322,16 +397,17 @@ pub fn run(_tier: Tier) -> Report {
     for p in parts {
         rep.merge(p);
     }
-    for g in ["some cell decides chunked", "some cell decides close-delimited", "some cell is an error"] {
+    for g in ["some cell decides chunked", "some cell decides close-delimited", "some cell is an error", "cells in the loaded context"] {
         rep.guard(g, false);
     }
-    rep.extra("cells", json!(jobs.len() * 96));
+    let cells = rep.states;
+    rep.extra("cells", json!(cells));
     rep
 }
 
 pub fn replay(v: &Value) -> Result<Option<String>, String> {
     let m = v["method"].as_str().ok_or("method")?;
-    let bases = Bases { flow: recv_response_flow(m), call: recv_response_call(m) };
-    let (fails, _) = check_cell(m, v["status"].as_u64().ok_or("status")? as u16, v["v11"].as_bool().ok_or("v11")?, v["cl"].as_str(), v["te"].as_str(), &bases);
+    let bases = bases(m);
+    let (fails, _) = check_cell(m, v["status"].as_u64().ok_or("status")? as u16, v["v11"].as_bool().ok_or("v11")?, v["cl"].as_str(), v["te"].as_str(), v["ctx"].as_str().unwrap_or("plain"), &bases);
     Ok(fails.into_iter().next().map(|(k, w)| format!("[{}] {}", k, w)))
 }
